@@ -150,10 +150,11 @@ SemOfQ(qn) == CHOOSE s \in Sems : SemQ(s) = qn
          } else if (op[1] = "semvalue") {
            call sem_value(op[2]);
 #! MAINT_MPMC
-   m3b: if (mgr[mm].mpmcq # None) {
-          \* mpmc_fifo_push (atomic section), then memset(&manager->mpmc_to_push, 0, ...)
+   m3p: if (mgr[mm].mpmcq # None) {
+          \* mpmc_fifo_push (atomic section) ...
           mq[SemOfQ(mgr[mm].mpmcq)] := Append(mq[SemOfQ(mgr[mm].mpmcq)], mgr[mm].mpmcf);
-          mgr[mm].mpmcq := None || mgr[mm].mpmcf := None;
+          \* ... then (after leaving the section) memset(&manager->mpmc_to_push, 0, ...)
+   m3q:   mgr[mm].mpmcq := None || mgr[mm].mpmcf := None;
         };
 #! MGRFIELDS
 , "mpmcq"
@@ -220,18 +221,3 @@ SemRestValue == \A s \in Sems :
                     (semPosting[s] = 0 /\ semPending[s] = {}) => semc[s] = SemInit[s] + semPosts[s] - semSucc[s]
 \* a fiber is blocked (announced, not popped) only inside wait
 SemBlockedPending == \A s \in Sems : semBlocked[s] \subseteq semPending[s]
-#! TRACEACTIONS
-\* Harness quirk: a fence hook (store_load_barrier in hazard_pointer_using) INSIDE the atomic
-\* section mpmc_fifo_push closes the recorded step: the "CALL mpmc_fifo_push" event then has an
-\* empty write set and the section's effect is carried by the following "cont" event of the same
-\* thread, while the CALL event's `nfn` (position pin) already names the function after the
-\* section.  Such an empty CALL event is consumed without the position pin; the effect itself is
-\* still matched (with the pin) at the "cont" event.
-TSemCall == /\ tl <= Len(Traces[tk])
-            /\ Ev.k = "CALL"
-            /\ Ev.fn = "mpmc_fifo_push"
-            /\ Ev.w = <<>>
-            /\ tl' = tl + 1
-            /\ UNCHANGED <<vars, tk, xm, mon>>
-#! TRACENEXT
- \/ TSemCall
